@@ -317,6 +317,182 @@ theorem reverse_compound (la : Loc) (par : PKey) (hc : la.Canon)
       exact ⟨_, List.mem_map.mpr ⟨x, hx, rfl⟩, by simp only; omega, by simp only; omega⟩
   · simp [(sortBlocks_perm _ _).length_eq]
 
+
+/-! ### `optimize_blocks` on layouts whose non-empty blocks are disjoint -/
+
+def nonEmptyB (b : Blk) : Bool := decide (b.1 < b.2)
+
+theorem comb_cons (c b : Blk) (bs : List Blk) : comb c (b :: bs) =
+    if b.2 - b.1 = 0 then comb c bs else if c.2 = b.1 then comb (c.1, max c.2 b.2) bs else c :: comb b bs := by
+  rw [comb]
+
+theorem combStart_cons (b : Blk) (bs : List Blk) : combStart (b :: bs) =
+    if b.2 - b.1 = 0 then combStart bs else comb b bs := by
+  rw [combStart]
+
+theorem comb_filter (c : Blk) (bs : List Blk) : comb c bs = comb c (bs.filter nonEmptyB) := by
+  induction bs generalizing c with
+  | nil => rfl
+  | cons b bs ih =>
+    by_cases h0 : b.2 - b.1 = 0
+    · have : nonEmptyB b = false := by simp [nonEmptyB]; omega
+      rw [List.filter_cons_of_neg (by simp [this])]
+      rw [comb_cons]
+      simp only [h0, if_true]
+      exact ih c
+    · have : nonEmptyB b = true := by simp [nonEmptyB]; omega
+      rw [List.filter_cons_of_pos this]
+      rw [comb_cons, comb_cons]
+      simp only [h0, if_false]
+      split
+      · exact ih _
+      · rw [ih b]
+
+theorem combStart_filter (bs : List Blk) : combStart bs = combStart (bs.filter nonEmptyB) := by
+  induction bs with
+  | nil => rfl
+  | cons b bs ih =>
+    by_cases h0 : b.2 - b.1 = 0
+    · have : nonEmptyB b = false := by simp [nonEmptyB]; omega
+      rw [List.filter_cons_of_neg (by simp [this])]
+      rw [combStart_cons]
+      simp only [h0, if_true]
+      exact ih
+    · have : nonEmptyB b = true := by simp [nonEmptyB]; omega
+      rw [List.filter_cons_of_pos this]
+      rw [combStart_cons, combStart_cons]
+      simp only [h0, if_false]
+      exact comb_filter b bs
+
+theorem comb_disjoint (c : Blk) (bs : List Blk) (hne : ∀ b ∈ bs, b.1 < b.2)
+    (hp : (c :: bs).Pairwise (fun a b => a.2 ≤ b.1)) :
+    (comb c bs).Pairwise (fun a b => a.2 ≤ b.1) := by
+  induction bs generalizing c with
+  | nil => simp [comb]
+  | cons b bs ih =>
+    have hb := hne b (by simp)
+    have hne' : ∀ x ∈ bs, x.1 < x.2 := fun x hx => hne x (List.mem_cons_of_mem _ hx)
+    rw [List.pairwise_cons] at hp
+    obtain ⟨hc, hp2⟩ := hp
+    have hp2' := List.pairwise_cons.mp hp2
+    unfold comb
+    have h0 : ¬ (b.2 - b.1 = 0) := by omega
+    simp only [h0, if_false]
+    split
+    · rename_i h1
+      apply ih _ hne'
+      rw [List.pairwise_cons]
+      refine ⟨?_, hp2'.2⟩
+      intro x hx
+      have := hp2'.1 x hx
+      have := hc b (by simp)
+      simp only; omega
+    · rw [List.pairwise_cons]
+      refine ⟨?_, ih b hne' hp2⟩
+      intro x hx
+      have hsub := comb_starts b bs
+      have hx1 : x.1 ∈ (comb b bs).map Prod.fst := List.mem_map.mpr ⟨x, hx, rfl⟩
+      have hx2 := hsub.subset hx1
+      rcases List.mem_cons.mp hx2 with h | h
+      · have := hc b (by simp); omega
+      · obtain ⟨y, hy, hy1⟩ := List.mem_map.mp h
+        have := hc y (List.mem_cons_of_mem _ hy)
+        omega
+
+theorem combStart_disjoint (bs : List Blk) (hne : ∀ b ∈ bs, b.1 < b.2)
+    (hp : bs.Pairwise (fun a b => a.2 ≤ b.1)) :
+    (combStart bs).Pairwise (fun a b => a.2 ≤ b.1) := by
+  cases bs with
+  | nil => simp [combStart]
+  | cons b bs =>
+    have hb := hne b (by simp)
+    have h0 : ¬ (b.2 - b.1 = 0) := by omega
+    unfold combStart
+    simp only [h0, if_false]
+    exact comb_disjoint b bs (fun x hx => hne x (List.mem_cons_of_mem _ hx)) hp
+
+/-- the normal-form clause: the layout is judged on the plus-sorted blocks, the library sorts for its strand -/
+theorem opt_normal_of_plus (L : List Blk) (st : Strand) (hv : ∀ b ∈ L, b.1 ≤ b.2)
+    (hno : nonOverlap (sortBlocks .plus L) = true) (r : Location)
+    (hr : optimizeLoc true ⟨sortBlocks st L, st⟩ = .ok r) (hspec : OptSpec true (sortBlocks st L) st r) :
+    normalBlocks (locationBlocks r) = true := by
+  have hPp := nonOverlap_pairwise _ (sortBlocks_valid .plus hv) hno
+  have hF : ((sortBlocks .plus L).filter nonEmptyB).Pairwise (fun a b => a.2 ≤ b.1) :=
+    hPp.sublist List.filter_sublist
+  have hFne : ∀ b ∈ (sortBlocks .plus L).filter nonEmptyB, b.1 < b.2 := by
+    intro b hb
+    have := (List.mem_filter.mp hb).2
+    simpa [nonEmptyB] using this
+  have hFlt := fst_lt_of_asc _ hF hFne
+  have hSF : (sortBlocks st L).filter nonEmptyB = (sortBlocks .plus L).filter nonEmptyB :=
+    List.Perm.eq_of_pairwise (le := fun a b => blkLe st a b = true)
+      (fun a b _ _ => blkLe_antisymm st a b)
+      ((sortBlocks_pairwise st L).sublist List.filter_sublist) (fst_lt_blkLe st _ hFlt)
+      (((sortBlocks_perm st L).filter _).trans ((sortBlocks_perm .plus L).filter _).symm)
+  have hcs : combStart (sortBlocks st L) = combStart ((sortBlocks .plus L).filter nonEmptyB) := by
+    rw [combStart_filter, hSF]
+  have hCn := combStart_normal (sortBlocks st L)
+  have hCpos := normal_pos _ hCn
+  have hCd : (combStart (sortBlocks st L)).Pairwise (fun a b => a.2 ≤ b.1) := by
+    rw [hcs]; exact combStart_disjoint _ hFne hF
+  have hClt := fst_lt_of_asc _ hCd hCpos
+  by_cases hC : combStart (sortBlocks st L) = []
+  · have hb0 : basesPlus (sortBlocks st L) = [] := by
+      rw [← combStart_bases _ (sortBlocks_valid st hv), hC]; rfl
+    have hb1 := hspec.bases rfl
+    rw [hb0] at hb1
+    have hb2 := List.Perm.eq_nil hb1
+    cases hbl : locationBlocks r with
+    | nil => rfl
+    | cons b t =>
+      have hpos := hspec.pos b (by simp [hbl])
+      rw [hbl] at hb2
+      simp only [basesPlus, blkAsc, List.append_eq_nil_iff, List.range'_eq_nil_iff] at hb2
+      omega
+  · have hs : sortBlocks st (sortBlocks st L) = sortBlocks st L :=
+      sortBlocks_eq_of_perm_sorted st (List.Perm.refl _) (sortBlocks_pairwise st L)
+    rw [optimizeLoc_true_ok _ st hs hC] at hr
+    cases hr
+    rw [locationBlocks_toSingleIfOne]
+    simp only
+    rw [sortBlocks_of_fst_lt st hClt]
+    exact hCn
+
+theorem locationBases_perm (l : Location) : (locationBases l).Perm (basesPlus (locationBlocks l)) := by
+  cases l with
+  | empty => exact List.Perm.refl _
+  | single b s =>
+    simp only [locationBases, locationBlocks, bases_mk]
+    split
+    · exact List.reverse_perm _
+    · exact List.Perm.refl _
+  | compound l =>
+    obtain ⟨bs, st⟩ := l
+    simp only [locationBases, locationBlocks, bases_mk]
+    split
+    · exact List.reverse_perm _
+    · exact List.Perm.refl _
+
+theorem strand_of_ne (l : Location) (h : l ≠ .empty) :
+    ∃ s, locStrand l = .ok s ∧ locationStrand? l = some s := by
+  cases l with
+  | empty => exact absurd rfl h
+  | single b s => exact ⟨s, rfl, rfl⟩
+  | compound l => exact ⟨l.strand, rfl, rfl⟩
+
+theorem blocks_ne_of_ne (l : Location) (hw : WF l) (h : l ≠ .empty) : locationBlocks l ≠ [] := by
+  cases l with
+  | empty => exact absurd rfl h
+  | single b s => simp [locationBlocks]
+  | compound l => exact hw.1
+
+theorem blocks_valid_of_wf (l : Location) (hw : WF l) : ∀ b ∈ locationBlocks l, b.1 ≤ b.2 := by
+  cases l with
+  | empty => simp [locationBlocks]
+  | single b s => intro x hx; simp only [locationBlocks, List.mem_singleton] at hx; subst hx; exact hw
+  | compound l => exact canon_valid l hw
+
+
 end BioCantor.Proofs.Misc
 
 namespace BioCantor.Proofs
@@ -381,5 +557,112 @@ theorem reverseP_ok (a : PLoc) (ha : WFP a) : okReverse a (ans (reverseP a)) = t
   | empty => simp [reverseP, okReverse, spanOf, locationBlocks]
   | single b st => exact reverse_single b st par hwf (fun n hn => hbd n hn b (by simp [locationBlocks]))
   | compound la => exact reverse_compound la par hwf (fun n hn => hbd n hn)
+
+/-- union_preserve_overlaps: the multiset of covered positions is the sum of the operands'; refused for EmptyLocation
+    operands, different strands, incompatible parents (outside the one-sided corner F-C19j) -/
+theorem unionPreserveP_ok (a b : PLoc) (ha : WFP a) (hb : WFP b) (hj : ¬ OneSidedParent a b) :
+    okUnionPreserve a b (ans (unionPreserveP a b)) = true := by
+  obtain ⟨la, pa⟩ := a
+  obtain ⟨lb, pb⟩ := b
+  obtain ⟨hwa, _, hbda⟩ := ha
+  obtain ⟨hwb, _, hbdb⟩ := hb
+  simp only at hwa hwb hbda hbdb
+  by_cases hea : la = .empty
+  · subst hea; simp [unionPreserveP, okUnionPreserve, unionRefused]
+  have heq : unionPreserveP (la, pa) (lb, pb) = (do
+      let sa ← locStrand la
+      let sb ← locStrand lb
+      if sa ≠ sb then throw .InvalidStrand
+      if !pa.isEmpty then requireParentsEq pa pb
+      let c ← mkCompoundP (locBlocks la ++ locBlocks lb) sa pa
+      optimizeBlocksP c) := by
+    cases la with
+    | empty => exact absurd rfl hea
+    | single _ _ => rfl
+    | compound _ => rfl
+  obtain ⟨sa, hls, hss⟩ := strand_of_ne la hea
+  have hea' : (la == Location.empty) = false := by simpa using hea
+  by_cases heb : lb = .empty
+  · subst heb
+    have : locStrand Location.empty = .error .EmptyLocation := rfl
+    rw [heq, hls, this]
+    simp [okUnionPreserve, unionRefused]
+    rfl
+  obtain ⟨sb, hls', hss'⟩ := strand_of_ne lb heb
+  have heb' : (lb == Location.empty) = false := by simpa using heb
+  rw [heq, hls, hls']
+  simp only [ok_bind]
+  by_cases hst : ¬ sa = sb
+  · have : strandEq la lb = false := by simp [strandEq, hss, hss', hst]
+    simp [okUnionPreserve, unionRefused, this, hst]
+    rfl
+  have hst := Decidable.not_not.mp hst
+  subst hst
+  have hse : strandEq la lb = true := by simp [strandEq, hss, hss']
+  cases hsp : sameParent pa pb with
+  | false =>
+    have hpa : pa ≠ [] := by
+      intro h
+      subst h
+      rw [sameParent_nil_left] at hsp
+      exact hj ⟨rfl, by intro h; subst h; simp at hsp⟩
+    have hpe : pa.isEmpty = false := by simpa using hpa
+    simp [okUnionPreserve, unionRefused, hsp, hpe, requireParentsEq_eq]
+    rfl
+  | true =>
+    rw [requireParentsEq_eq, hsp]
+    simp only [ne_eq, not_true_eq_false, if_false, if_true, ok_bind, ite_self]
+    rw [locBlocks_eq, locBlocks_eq]
+    have hseq := sameParent_seqLen pa pb hsp
+    have hLne : locationBlocks la ++ locationBlocks lb ≠ [] := by
+      have := blocks_ne_of_ne la hwa hea
+      simp [this]
+    have hLv : ∀ x ∈ locationBlocks la ++ locationBlocks lb, x.1 ≤ x.2 := by
+      intro x hx
+      rcases List.mem_append.mp hx with h | h
+      · exact blocks_valid_of_wf la hwa x h
+      · exact blocks_valid_of_wf lb hwb x h
+    have hLb : ∀ n, parentSeqLen pa = some n → ∀ x ∈ locationBlocks la ++ locationBlocks lb, x.2 ≤ n := by
+      intro n hn x hx
+      rcases List.mem_append.mp hx with h | h
+      · exact hbda n hn x h
+      · exact hbdb n (hseq ▸ hn) x h
+    rw [mkCompoundP_ok _ sa pa hLne hLv hLb]
+    obtain ⟨r, hr, hspec⟩ := optimizeLoc_spec true _ sa (canon_sortBlocks sa hLne hLv)
+    simp only [ok_bind, optimizeBlocksP, optimizeBlocks, hr, pure, Except.pure, ans_ok]
+    simp only [okUnionPreserve, unionRefused, hea', heb', hse, hsp, Bool.not_true, Bool.or_false, Bool.false_eq_true,
+      if_false, withPar_fst, Bool.and_eq_true]
+    refine ⟨⟨⟨⟨⟨?_, ?_⟩, ?_⟩, ?_⟩, ?_⟩, ?_⟩
+    · apply resultOk_withPar r pa pa hspec.wf _ (sameParent_refl pa)
+      intro n hn x hx
+      have h1 := hspec.ends_le x hx
+      have h2 : maxEndOf (sortBlocks sa (locationBlocks la ++ locationBlocks lb)) ≤ n := by
+        rw [maxEndOf_perm (sortBlocks_perm _ _), maxEndOf_le_iff]
+        exact hLb n hn
+      omega
+    · rw [beq_iff_eq]
+      apply sortNat_perm
+      refine (locationBases_perm r).trans ((hspec.bases rfl).trans ?_)
+      refine (basesPlus_perm (sortBlocks_perm _ _)).trans ?_
+      rw [basesPlus_append]
+      exact ((locationBases_perm la).symm).append ((locationBases_perm lb).symm)
+    · rw [hss]; exact hspec.strandIs
+    · exact hspec.noEmptyBlock
+    · exact hspec.kind
+    · split
+      · rename_i hno
+        exact opt_normal_of_plus _ sa hLv hno r hr hspec
+      · rfl
+
+
+/-! ### the hypotheses are satisfiable -/
+
+example : WFP ((.compound ⟨[(0, 2), (2, 2), (3, 5)], .minus⟩), [(some "chrA", none, some ['A','C','G','T','A'])]) := by
+  decide
+
+example : WFP ((.single (1, 4) .minus), [(some "chrA", none, some ['A','C','G','T','A'])]) ∧
+    ¬ OneSidedParent ((.compound ⟨[(0, 2), (2, 2), (3, 5)], .minus⟩), [(some "chrA", none, some ['A','C','G','T','A'])])
+      ((.single (1, 4) .minus), [(some "chrA", none, some ['A','C','G','T','A'])]) := by
+  decide
 
 end BioCantor.Proofs
